@@ -110,6 +110,12 @@ func cmdFunc(args []string) {
 		fmt.Printf("  [exec %.1fs, discharge %.1fs]\n", t1.Sub(t0).Seconds(), time.Since(t1).Seconds())
 		summarize(res, *verbose)
 		t2 := time.Now()
+		for _, d := range res.DeadAfterCall {
+			fmt.Println("  VACUOUS-BRANCH", d)
+		}
+		for _, d := range res.DeadBlocks {
+			fmt.Println("  DEAD", d)
+		}
 		for _, c := range evalCovers(res, filepath.Join(e.outDir, sanitize(res.Func)), e.preludeText(res, res.Axioms)) {
 			fmt.Println("  VACUOUS", c)
 		}
